@@ -43,6 +43,8 @@ def split_case(draw):
     dims = [nloc] * d if hom else [draw(st.sampled_from([2, 2, 3])) for _ in range(d)]
     if int(np.prod(dims)) > 300:
         dims = [2] * d
+    if not hom and d >= 3 and draw(st.sampled_from([False, False, False, True])):
+        dims[draw(st.sampled_from([0, d - 1]))] = 1                 # a site of local dimension 1 at an end of the chain
     klass = draw(st.sampled_from(['generic', 'generic', 'skew', 'stochastic']))
     # site-dependent LISTS whose entries are nevertheless the same arrays on every site but one (a uniform bulk with a defect)
     uniform_bulk = (not hom) and d >= 3 and draw(st.sampled_from([False, False, True]))
@@ -281,6 +283,8 @@ def body_structure(c):
         lab.add('state_dtype_differs_from_components')
     if c.get('uniform_bulk'):
         lab.add('uniform_bulk_with_defect')
+    if 1 in c['dims']:
+        lab.add('site_of_dimension_1')
     if d % 2 == 0:
         lab.add('even_length')
     if c['two_d'] and c['rank'] == 1:
